@@ -1,4 +1,4 @@
-import DilithiumVerif.Props.C12
+import DilithiumVerif.Lemmas.Sponge
 /-
   Lemmas.ShakeSmall — one-shot SHAKE-256 with a short output (fewer bytes than the rate): the result does not depend on
   the capacity of the output buffer it is written into, and has exactly the requested length.
